@@ -389,6 +389,11 @@ func SetTypeConverter(typ reflect.Type, conv TypeConverter) {
 func getTypeConverter(typ reflect.Type) (TypeConverter, error) {
 	kind := typ.Kind()
 	if conv, ok := kindConverters[kind]; ok {
+		if base := kindTypes[kind]; base != nil && typ != base {
+			// A named type such as time.Duration: the kind converters assert
+			// and produce the predeclared type, so convert on the way in and out.
+			return &NamedConverter{typ: typ, base: base, conv: conv}, nil
+		}
 		return conv, nil
 	}
 	if conv, ok := typeConverters[typ]; ok {
@@ -446,6 +451,48 @@ func getTypeConverter(typ reflect.Type) (TypeConverter, error) {
 		return nil, errz.TypeErrorf("type error: unsupported kind: %s", kind)
 	}
 	return converter, nil
+}
+
+// kindTypes maps each kind handled by kindConverters to its predeclared type.
+var kindTypes = map[reflect.Kind]reflect.Type{
+	reflect.Bool:    reflect.TypeOf(false),
+	reflect.Int:     reflect.TypeOf(int(0)),
+	reflect.Int8:    reflect.TypeOf(int8(0)),
+	reflect.Int16:   reflect.TypeOf(int16(0)),
+	reflect.Int32:   reflect.TypeOf(int32(0)),
+	reflect.Int64:   reflect.TypeOf(int64(0)),
+	reflect.Uint:    reflect.TypeOf(uint(0)),
+	reflect.Uint8:   reflect.TypeOf(uint8(0)),
+	reflect.Uint16:  reflect.TypeOf(uint16(0)),
+	reflect.Uint32:  reflect.TypeOf(uint32(0)),
+	reflect.Uint64:  reflect.TypeOf(uint64(0)),
+	reflect.Float32: reflect.TypeOf(float32(0)),
+	reflect.Float64: reflect.TypeOf(float64(0)),
+	reflect.String:  reflect.TypeOf(""),
+}
+
+// NamedConverter adapts the converter of a predeclared type (e.g. int64) to a
+// named type with that underlying type (e.g. time.Duration).
+type NamedConverter struct {
+	typ  reflect.Type
+	base reflect.Type
+	conv TypeConverter
+}
+
+func (c *NamedConverter) To(obj Object) (interface{}, error) {
+	v, err := c.conv.To(obj)
+	if err != nil {
+		return nil, err
+	}
+	return reflect.ValueOf(v).Convert(c.typ).Interface(), nil
+}
+
+func (c *NamedConverter) From(obj interface{}) (Object, error) {
+	v := reflect.ValueOf(obj)
+	if !v.IsValid() || v.Type() != c.typ {
+		return nil, errz.TypeErrorf("type error: expected %s (%T given)", c.typ, obj)
+	}
+	return c.conv.From(v.Convert(c.base).Interface())
 }
 
 // BoolConverter converts between bool and *Bool.
